@@ -27,6 +27,8 @@ type Case struct {
 	Fault     string
 	Wrappers  []string
 	Deferred  bool
+	// another text is read (by the host, under another module name) after the program was read and before it is evaluated
+	InterRead bool `json:",omitempty"`
 }
 
 const mark = "\x01"
@@ -78,6 +80,8 @@ var fillers = []string{
 	";; $x 1\n(def f%d \"a\\nb\")",
 	"(def f%d (let (a 1)\n  ; inner comment\n  (+ a\n     1)))",
 	"(defmacro m%d (fn (x)\n  `(list ~x\n     1)))",
+	"(def f%d (read-string \"(a b c d e f g h i j k l m n o p q r s t u v w x y z a b c d e f g h i j k l m n o p q r s t u v w x y z)\"))",
+	"(def f%d (count (read-string \"[1 2 3 4 5 6 7 8 9 10 11 12 13 14 15 16 17 18 19 20 21 22 23 24 25 26 27 28 29 30 31 32 33 34 35 36 37 38 39 40 41 42 43 44 45 46 47 48 49 50]\")))",
 }
 
 func genCase(t *rapid.T) Case {
@@ -106,7 +110,16 @@ func genCase(t *rapid.T) Case {
 	faulty := expr
 	var later []string
 	if c.Deferred {
-		switch gen.Uniform(t, "defkind", 4) {
+		switch gen.Uniform(t, "defkind", 7) {
+		case 4: // the later call is the body of a try without catch
+			faulty = "(def later-fn (fn (p)\n  " + expr + "))"
+			later = append(later, "(try\n  (later-fn 1)\n  (finally\n    1))")
+		case 5:
+			faulty = "(def later-fn (fn (p)\n  " + expr + "))"
+			later = append(later, "(try (do 1\n  (later-fn 1)))")
+		case 6: // … and some text is read at run time in between
+			faulty = "(def later-fn (fn (p)\n  " + expr + "))"
+			later = append(later, "(do (read-string \"(q w e r t y u i o p a s d f g h j k l z x c v b n m q w e r t y u i o p a s d f g h j k l z x c v b n m)\")\n  (later-fn 1))")
 		case 3: // the later call is the initialiser of a let binding
 			faulty = "(def later-fn (fn (p)\n  " + expr + "))"
 			later = append(later, "(let (r (later-fn 1)\n      s 2)\n  (list r s))")
@@ -152,6 +165,7 @@ func genCase(t *rapid.T) Case {
 	}
 	sb.WriteString(rapid.SampledFrom([]string{")", "\n)", "\n)\n", " ) ; end"}).Draw(t, "close"))
 	c.Text = sb.String()
+	c.InterRead = gen.Chance(t, "interread", 3)
 	return c
 }
 
@@ -169,9 +183,22 @@ func check(c Case) pbt.Verdict {
 		if err != nil {
 			return nil, fmt.Errorf("READ: %w", err)
 		}
+		if c.InterRead {
+			// the host parses another, longer script before it evaluates this one
+			var other strings.Builder
+			for i := 0; i < 40; i++ {
+				other.WriteString(fmt.Sprintf("\n(def other-%d (fn (a b c) (list a b c other-unbound-%d)))", i, i))
+			}
+			if _, err := lisp.READ("(do"+other.String()+")", types.NewCursorFile("other/script.lisp"), e); err != nil {
+				return nil, fmt.Errorf("READ: %w", err)
+			}
+		}
 		return lisp.EVAL(ctx, ast, e)
 	})
-	v := pbt.Verdict{Key: c.Text, Labels: []string{"fault:" + c.Fault}}
+	v := pbt.Verdict{Key: c.Text + fmt.Sprint(c.InterRead), Labels: []string{"fault:" + c.Fault}}
+	if c.InterRead {
+		v.Labels = append(v.Labels, "another-text-read-in-between")
+	}
 	for _, w := range c.Wrappers {
 		v.Labels = append(v.Labels, "wrapper:"+w)
 	}
